@@ -243,7 +243,51 @@ def classify_xinclude(handler, has_q, exc):
     return "C09/xinclude-native-handler-loses-prefixes"
 
 
+def check_rebound_prefix(ctx, seed):
+    """Directed: `xsi:type="t:Figure"` where `t` is bound element by element to another namespace, next to the same infoset spelled
+    with one prefix per namespace declared on the root. Both must give the object the reference construction gives (seeded change
+    C09-r4-2: a process-wide memo keyed by the raw attribute text). The parser/context pair lives as long as the shard."""
+    import random
+
+    from vf.props import c09_models as M
+
+    rng = random.Random(seed)
+    kinds = [(M.FigureOne, "urn:vf:c09:one", "r", "a"), (M.FigureTwo, "urn:vf:c09:two", "side", "b"), (M.FigureThree, "urn:vf:c09:three", "edge", "c")]
+    picks = [(rng.choice(kinds), rng.randrange(100)) for _ in range(rng.randrange(1, 5))]
+    expected = M.Drawing(shape=[k[0](**{k[2]: v}) for k, v in picks])
+    pfx = rng.choice(["t", "ns0", "a"])
+    xsi = 'xmlns:xsi="http://www.w3.org/2001/XMLSchema-instance"'
+    reused = f"<drawing {xsi}>" + "".join(f'<shape xmlns:{pfx}="{k[1]}" xsi:type="{pfx}:Figure" {k[2]}="{v}"/>' for k, v in picks) + "</drawing>"
+    decl = " ".join(f'xmlns:{k[3]}="{k[1]}"' for k in kinds)
+    distinct = f"<drawing {xsi} {decl}>" + "".join(f'<shape xsi:type="{k[3]}:Figure" {k[2]}="{v}"/>' for k, v in picks) + "</drawing>"
+    w = {"fn": "rebound", "seed": seed}
+    ctx.feature("directed:xsi-type-prefix-rebound-per-element")
+    for handler in bc.HANDLERS:
+        for label, doc in (("reused-prefix", reused), ("distinct-prefixes", distinct)):
+            ctx.case("rebound", doc, handler)
+            try:
+                got = shared_parser(handler).from_bytes(doc.encode(), M.Drawing)
+            except Exception as e:  # noqa: BLE001
+                ctx.violation(f"rewritten-rejected/{handler}/xsi-type-{label}/{bc.short_exc(e)}", f"{type(e).__name__}: {e}\n{doc}", w)
+                continue
+            d = deep_eq(expected, got)
+            if d:
+                ctx.violation(f"parse-differs/{handler}/xsi-type-{label}", f"{d}\n{doc}\nexpected {expected!r}\ngot {got!r}", w)
+
+
+_PARSERS = {}
+
+
+def shared_parser(handler):
+    if handler not in _PARSERS:
+        _PARSERS[handler] = bc.strict_parser(handler, None)
+    return _PARSERS[handler]
+
+
 def replay(witness, ctx):
+    if witness.get("fn") == "rebound":
+        check_rebound_prefix(ctx, witness["seed"])
+        return
     model, loaded, obj = bc.from_witness(witness)
     try:
         if witness.get("fn") == "xinclude":
@@ -282,6 +326,8 @@ def run_shard(ctx):
                 writer = rng.choice(bc.WRITERS)
                 for _ in range(2):
                     check(ctx, case.model, case.style, case.loaded, obj, cfg, writer, rng.getrandbits(40), rng.choice(ENCODINGS))
+                if rng.random() < 0.1:
+                    check_rebound_prefix(ctx, rng.getrandbits(40))
                 if rng.random() < 0.15:
                     check_xinclude(ctx, case.model, case.style, case.loaded, obj, cfg, writer, rng.getrandbits(40))
         finally:
